@@ -193,7 +193,7 @@ func runC02(c *Ctx) {
 	if build := genFn(c, "C02.2", "(*Graph).Build"); build != nil {
 		// providerArgs[edge.provideArgDst] = {Param: n.returnValues[edge.provideArgSrc]}
 		ok := false
-		for _, st := range storesToField(withClosures(build), "internal/kessoku.InjectorCallArgument.Param") {
+		for _, st := range storesToField(family(L, build), "internal/kessoku.InjectorCallArgument.Param") {
 			s := newSym(L, map[string]bool{})
 			s.maxD = 0
 			t := strings.Join(s.eval(st.Val), "|")
